@@ -9,6 +9,7 @@ import GocoinV.Proofs.C09Size
 import GocoinV.Proofs.C09Alloc
 import GocoinV.Proofs.C09Block
 import GocoinV.Proofs.C09Obj
+import GocoinV.Proofs.C09Client
 namespace GocoinV.Props.C09
 open GocoinV GocoinV.Wire GocoinV.CompactSize
 
@@ -598,6 +599,76 @@ theorem compactsize_sizes (v : Nat) (hv : v < 2^64) (rest : Bytes) :
     all_goals omega
 
 example : ∃ v : Nat, v < 2^64 ∧ vlenSize v = 5 := ⟨65536, by decide, by decide⟩
+
+/-! ### the decoder inside the node: copies of a wanted block, the disk cache (Model/WireClient.lean)
+
+The statement LISTS of the places that install a copy of a wanted block in its `btc.Block` object and that discard a
+refused copy are regenerated from client/network/data.go and cblk.go on every run (`Gen/C09Client.lean`); the theorems
+below are checked against whatever was generated. -/
+
+/-- **client_statement_lists_reset.** For each of the three entry paths (`block`, `cmpctblock` complete, `blocktxn`):
+    the discard branch — run on the object in ANY state — leaves `Raw` = the bare header, `TxCount = 0` ("count not
+    parsed", the condition under which `BuildTxListExt` reads the count of the next `Raw`) and `Txs = nil` (the condition
+    under which `PostCheckBlock` parses at all); the install place — run on such an object — leaves `Raw` = the copy with
+    `(TxCount, TxOffset)` unparsed or belonging to the copy, and `Txs` still nil. Decided by evaluating an abstract
+    interpretation of the generated lists, which `abs_sound` proves sound for the statement semantics. -/
+theorem client_statement_lists_reset (v : Via) :
+    discardOK (discardOf v) = true ∧ installOK (installOf v) = true :=
+  client_lists_ok v
+
+/-- **client_copies_exact.** A wanted block whose header `hdr` is known (`NewBlock(hdr)`), ANY sequence of copies that
+    were refused and discarded — through any of the three entry paths, with any content of at least 80 bytes, whatever
+    PostCheckBlock's parse made of them — and then a copy `c` (at least 81 bytes, through any entry path): the parse
+    `PostCheckBlock` performs on it never panics, returns the error class of the pure decode `decodeBlock H c.data` of
+    THESE bytes, and (unless that is the count error) leaves `Raw` = the copy and `TxCount`, `Txs` (with `Hash`, `wTxID`,
+    `Size`, `NoWitSize` of every transaction) and `BlockWeight` equal to that decode — nothing of a refused copy
+    (its transaction count, the offset behind its count field, its transactions) reaches the decode of the next one. -/
+theorem client_copies_exact (H : Bytes → Bytes) (hdr : Bytes) (hh : hdr.length = 80)
+    (bad : List Copy) (hb : ∀ c ∈ bad, 80 ≤ c.data.length) (c : Copy) (hc : 81 ≤ c.data.length) :
+    let s := clientRun H bad (updateContent hdr emptyObj).1
+    let r := decodeBlock H c.data
+    let res := deliver H c s
+    res.1.raw = c.data ∧ res.2 = outcomeOf r.err ∧ res.2 ≠ .panic ∧
+    (res.2 ≠ .badCount → res.1.txCount = r.txCount ∧ res.1.txs = some r.txs ∧ res.1.weight = r.weight) := by
+  intro s r res
+  have hidle : Idle hdr s := idle_run H hdr bad hb _ (idle_new hdr hh)
+  obtain ⟨h1, h2, h3, _, h5⟩ := deliver_idle H hdr c hc s hidle
+  obtain ⟨e1, e2, e3, e4⟩ := decodeBlockExt_true H c.data
+  refine ⟨h1, ?_, h3, ?_⟩
+  · rw [h2]; exact congrArg outcomeOf e1
+  · intro hne
+    obtain ⟨a, _, b, d⟩ := h5 hne
+    exact ⟨a.trans e2, by rw [b]; exact congrArg some e3, d.trans e4⟩
+
+example : ∃ (hdr : Bytes) (bad : List Copy) (c : Copy), hdr.length = 80 ∧ (∀ x ∈ bad, 80 ≤ x.data.length) ∧
+    81 ≤ c.data.length ∧ bad.length = 2 :=
+  ⟨List.replicate 80 0, [⟨.cmpctB, List.replicate 90 1⟩, ⟨.full, List.replicate 100 2⟩], ⟨.full, List.replicate 81 3⟩,
+   by decide, by intro x h; simp at h; rcases h with rfl | rfl <;> decide, by decide, rfl⟩
+
+/-- **disk_cache_exact.** `get_block_from_disk_cache` (client/main.go; block file content `d`, side file content `h`,
+    `none` = no side file) for a 32-byte hash function: when the side file is missing, is exactly what netBlockReceived
+    writes for the block (`hashesFile` of the block decoded with hashing), or has ANY OTHER LENGTH than that (cut short
+    at any point by a failed write, empty, or too long), the function panics exactly when the block file does not decode
+    completely, and otherwise returns a block whose `TxCount`, `Txs` (`Hash`, `wTxID`, `Size`, `NoWitSize` of every
+    transaction) and `BlockWeight` are those of `decodeBlock H d` — `Txs[i].Hash` is the txid, never the zero value of the
+    hash-less parse. (A side file of the right length with other CONTENT is outside the statement: the disk is trusted
+    to return what was written or a prefix of it.) -/
+theorem disk_cache_exact (H : Bytes → Bytes) (hH : ∀ b, (H b).length = 32) (d : Bytes) (h : Option Bytes)
+    (hh : ∀ x, h = some x → x = hashesFile (decodeBlock H d).txs ∨ x.length ≠ (hashesFile (decodeBlock H d).txs).length) :
+    match diskCacheGet H (some d) h with
+    | none => (decodeBlock H d).err ≠ none
+    | some s => (decodeBlock H d).err = none ∧ s.raw = d ∧ s.txCount = (decodeBlock H d).txCount ∧
+        s.txs = some (decodeBlock H d).txs ∧ s.weight = (decodeBlock H d).weight :=
+  disk_cache_get_spec H hH d h hh
+
+example : ∃ (H : Bytes → Bytes) (d : Bytes) (h : Option Bytes), (∀ b, (H b).length = 32) ∧
+    (∀ x, h = some x → x = hashesFile (decodeBlock H d).txs ∨ x.length ≠ (hashesFile (decodeBlock H d).txs).length) ∧
+    h ≠ none :=
+  ⟨fun _ => List.replicate 32 0, [], some [1], by intro b; simp, by
+    intro x hx
+    cases hx
+    right
+    simp [decodeBlock, hashesFile], by simp⟩
 
 -- OPEN: alloc_bounded_runtime — the bound is about the bytes REQUESTED (`Wire.allocTx`, proved above for every input);
 --   what the Go runtime adds (size-class rounding ≤ 2×, the panic value of a failed slice expression, `println`) is
